@@ -48,7 +48,18 @@ static const struct { const char *path, *content; } TREE[] = {
 };
 #define NTREE (int) (sizeof TREE / sizeof TREE[0])
 
+/* the evaluation root is three directories below the per-process directory, so that a path that escapes
+   (at most two ".." fit into the path bound) still lands inside the area this process removes */
+#define ROOT_NEST "/x/y/z"
+static const char *const keep_z[] = { "z", 0 }, *const keep_y[] = { "y", 0 };
+static void outside_sentinels (void) {
+  fs_rm_children ("..", keep_z);
+  fs_rm_children ("../..", keep_y);
+  fs_spit ("../a", "outside\n", 8); fs_spit ("../aa", "outside\n", 8);
+  fs_spit ("../a.c", LPC_A, strlen (LPC_A)); fs_spit ("../a.o", SAVE_T, strlen (SAVE_T));
+}
 static void tree_reset (void) {
+  outside_sentinels ();
   fs_rm_children (".", 0);
   for (int i = 0; i < NTREE; i++) {
     if (!TREE[i].content) mkdir (TREE[i].path, 0755);
@@ -75,7 +86,15 @@ static void ensure_root (void) {
   }
   snprintf (my_root, sizeof my_root, "%s/c%d", scratch_base, (int) getpid ());
   fs_rm_rf (my_root);
-  if (mkdir (my_root, 0755) == -1 || chdir (my_root) == -1) { vx_fail ("HARNESS:scratch", "cannot create %s: %s", my_root, strerror (errno)); vx_child_exit (3); }
+  {
+    char d[PATH_MAX]; int ok = mkdir (my_root, 0755) == 0;
+    snprintf (d, sizeof d, "%s/x", my_root); ok = ok && mkdir (d, 0755) == 0;
+    snprintf (d, sizeof d, "%s/x/y", my_root); ok = ok && mkdir (d, 0755) == 0;
+    snprintf (d, sizeof d, "%s" ROOT_NEST, my_root); ok = ok && mkdir (d, 0755) == 0 && chdir (d) == 0;
+    if (ok) goto made;
+  }
+  { vx_fail ("HARNESS:scratch", "cannot create %s: %s", my_root, strerror (errno)); vx_child_exit (3); }
+made:
   root_owner = getpid ();
   dirty = 1;
 }
@@ -695,11 +714,6 @@ int main (int argc, char **argv) {
     snprintf (dst, sizeof dst, "%s/%s", boot, copy[i]);
     if (fs_copy_tree (src, dst)) { fprintf (stderr, "cannot copy %s\n", src); return 2; }
   }
-  /* things that must stay unreachable: siblings of every evaluation root */
-  snprintf (dst, sizeof dst, "%s/a", scratch_base); fs_spit (dst, "outside\n", 8);
-  snprintf (dst, sizeof dst, "%s/aa", scratch_base); fs_spit (dst, "outside\n", 8);
-  snprintf (dst, sizeof dst, "%s/a.c", scratch_base); fs_spit (dst, LPC_A, strlen (LPC_A));
-  snprintf (dst, sizeof dst, "%s/a.o", scratch_base); fs_spit (dst, SAVE_T, strlen (SAVE_T));
 
   hx_boot (boot, "IncludeDir /include\n", 0);
   vx_count_name (0, "elements_reaching_libc");
